@@ -196,7 +196,24 @@ func runC53(c *Ctx) {
 		}
 		// (c) the predicate's output operand is the region written: its root is the buffer the writers use (by construction) and it is not the input
 		in := rootOf(g.Call.Args[1])
-		c.check(in != out, "C53.operands", name, g, "output region vs input parameter", "the predicate compares a buffer with itself")
+		okExtent := in != out
+		detail := "the predicate compares a buffer with itself"
+		// when the output operand is carved out of a caller-supplied buffer
+		// (dst[:len(src)]), its extent must be the input's length from offset 0
+		if sl, isS := g.Call.Args[0].(*ssa.Slice); isS {
+			if _, isParam := out.(*ssa.Parameter); isParam {
+				if sl.Low != nil {
+					if k, isC := constInt(sl.Low); !isC || k != 0 {
+						okExtent, detail = false, "the guarded output region does not start at the beginning of the output buffer"
+					}
+				}
+				lc, isC := sl.High.(*ssa.Call)
+				if sl.High == nil || !isC || calleeName(&lc.Call) != "builtin:len" || rootOf(lc.Call.Args[0]) != in {
+					okExtent, detail = false, "the guarded output region is not out[:len(input)], the region that is written"
+				}
+			}
+		}
+		c.check(okExtent, "C53.operands", name, g, "output region (full extent) vs input parameter", detail)
 	}
 	// alias package: both predicates compare element addresses
 	for _, fn := range []string{"AnyOverlap", "InexactOverlap"} {
